@@ -11,7 +11,7 @@ log = "/verif/.cache/seedlogs/%s.log" % name
 confirm = open(log).read() if os.path.exists(log) else ""
 json.dump({
     "property": prop,
-    "origin": "independent sub-agent given only the property text and a scratch worktree of /repo (commit bf5fee6)",
+    "origin": "independent sub-agent given only the property text and a scratch worktree of /repo (the commit current at that time)",
     "needs_to_manifest": needs,
     "confirmed_by_me": {
         "how": "tools/confirm_seed.sh in the scratch worktree: demonstration fails with the change and passes without it; the crate's existing tests (cargo nextest -p <crate>) pass with the change except the known failing web_ide_shell_… test and wall-clock (latency/performance/watcher/deadline) tests that are flaky under load",
